@@ -83,6 +83,8 @@ func buildVocab() *Vocab {
 		mustImm("r"),
 		// near misses
 		mustTmp("p", T2z),
+		// anchors inside one second with different printed precision (appended: indices above stay stable)
+		mustTmp("p", T1.Add(500*time.Millisecond)), mustTmp("p", T1.Add(250*time.Millisecond)), mustTmp("p", T1.Add(255*time.Millisecond)),
 	}
 	v.PredsClean = 8
 	v.Objs = []*triple.Object{
